@@ -237,7 +237,7 @@ Fixpoint ft_while (fuel : nat) (has_redirect_from : bool) (s : ft_state) : ft_re
       end
   end.
 
-Definition from_tokens (tokens : list tok) : result2 :=
+Definition from_tokens_core (tokens : list tok) : result2 :=
   let tokens_new := tokens in
   let has_redirect_from := existsb is_from_tok tokens_new in
   let len := length tokens_new in
@@ -295,7 +295,7 @@ Definition item := (list tok * rspec)%type.
 Definition render (items : list item) (last : list tok) : list tok :=
   flat_map (fun it => fst it ++ render_r (snd it)) items ++ last.
 
-(* PROPOSED notes/C04-fix-5.patch: `cmd <file` written without a blank.  An untagged word that starts
+(* /repo 543507e: `cmd <file` written without a blank.  An untagged word that starts
    with one `<` (not `<<`) and has more characters is split into `<` and the rest before the loop. *)
 Definition split_lt (t : tok) : list tok :=
   match fst t, snd t with
@@ -303,4 +303,5 @@ Definition split_lt (t : tok) : list tok :=
       if N.eqb c 60 && negb (N.eqb c2 60) then [([], s_lt); ([], c2 :: r)] else [t]
   | _, _ => [t]
   end.
-Definition from_tokens_att (tokens : list tok) : result2 := from_tokens (flat_map split_lt tokens).
+(* [from_tokens_core]: the function from the extraction loop on (= the whole function before 543507e) *)
+Definition from_tokens (tokens : list tok) : result2 := from_tokens_core (flat_map split_lt tokens).
